@@ -17,7 +17,8 @@ LEVEL_NOTE = 'trusted: the SDF renderer and table in this module, vk/gen_netlist
 DESIGN_REF = 'DESIGN.md section 3 C14'
 LEVEL = 'exploration'
 RULE = ('Cases: (netlist, branchforks, SDF rendering seed). Non-trivial iff the entries of some instance are split over >= 2 CELL blocks and the file has an edge-qualified '
-        'IOPATH. Distinct = digest of (Verilog text, SDF text, branchforks).')
+        'IOPATH. Distinct = digest of (Verilog text, SDF text, branchforks).'
+        " Delay values with 3-6 decimals, tiny and 8-digit magnitudes, integers and '.5' forms; one netlist of 130-280 instances per shard; the same DelayFile applied to a second circuit of the same name; texts reach the parser through parse() or the load() variants.")
 ASSUMPTIONS = ['entries are applied in file order: where two IOPATH entries address the same line and input polarity the later one wins, an empty value list reading as 0 there too',
                'INTERCONNECT entries are generated only where the documented precondition holds (a branch fork exists or the net has exactly one reader)',
                'one or two value lists per entry; values >= 0 with three decimals']
